@@ -14,6 +14,7 @@ import (
 	"sort"
 	"strings"
 	"sync"
+	"time"
 
 	"github.com/nspcc-dev/neo-go/pkg/crypto/keys"
 	"github.com/nspcc-dev/neo-go/pkg/util"
@@ -198,6 +199,141 @@ func run(c tcase) (out outcome) {
 	return
 }
 
+// ---------- part 2: histories of the membership lookup environment on ONE server ----------
+
+var hstates = []string{"member", "non-member", "committee-lookup-error", "irlist-lookup-error"}
+
+// applyH sets the lookup environment. In the two error states the node is NOT a member (and cannot learn anything).
+func applyH(w *irworld.World, st string) {
+	me := w.NodeKey.PublicKey()
+	w.Lock(func(t *irworld.Tables) {
+		var alpha keys.PublicKeys
+		for i := 0; i < len(w.Alphabet); i++ {
+			alpha = append(alpha, irworld.AlphabetKey(i).PublicKey())
+		}
+		t.CommitteeErr, t.IRListErr = nil, nil
+		if st == "member" {
+			alpha[1] = me
+			t.Committee = alpha
+			t.IRList = append(alpha.Copy(), irworld.Key("ir-extra").PublicKey())
+		} else {
+			t.Committee = alpha
+			t.IRList = append(keys.PublicKeys{me}, alpha...)
+		}
+		switch st {
+		case "committee-lookup-error":
+			t.CommitteeErr = errors.New("verif: committee lookup failed")
+		case "irlist-lookup-error":
+			t.IRListErr = errors.New("verif: inner ring list lookup failed")
+		}
+		t.MainAlphabet = t.Committee.Copy()
+		t.MainAlphabet[len(t.MainAlphabet)-1] = irworld.Key("new-mainnet-alphabet").PublicKey()
+		sort.Sort(t.MainAlphabet)
+	})
+}
+
+type hcase struct {
+	S1, S2   string
+	Prime    bool // one plain IsAlphabet() query is made right after the cache expired, before the event
+	Delivery string
+}
+
+// deliverRound delivers a fresh well-formed event of the kind (round makes transactions distinct).
+func deliverRound(w *irworld.World, f *irworld.Fixture, delivery string, round int) error {
+	p := strings.Split(delivery, "/")
+	switch p[0] {
+	case "reconnect":
+		if err := w.Srv.VerifRestartFSChain(); err != nil {
+			return err
+		}
+		w.Quiesce()
+	case "timer":
+		if round == 0 {
+			w.Header(100)
+			if p[1] == "new-epoch" {
+				w.TakeCalls()
+				w.Header(150)
+			}
+		} else {
+			w.Header(uint32(150 + round))
+		}
+	case "fs-notification", "main-notification":
+		chain := strings.TrimSuffix(p[0], "-notification")
+		h := contractByName(w, p[1])
+		items, ok := w.CanonicalNotification(chain, h, p[2])
+		if !ok {
+			return fmt.Errorf("no fixture for %s", delivery)
+		}
+		w.Notify(chain, h, p[2], irworld.Hash256(fmt.Sprintf("trigger-tx-%d", round)), items...)
+	case "fs-notary":
+		h := contractByName(w, p[1])
+		sc, ok := w.CanonicalNotaryScript(f, h, p[2])
+		if !ok {
+			return fmt.Errorf("no fixture for %s", delivery)
+		}
+		w.Notary(w.Request(sc, irworld.NROpt{Invoker: p[1] != "container", Nonce: uint32(100 + round)}))
+	default:
+		return fmt.Errorf("unknown delivery %s", delivery)
+	}
+	return nil
+}
+
+// runH: server started in environment S1 (real cache timeout of one hour), environment becomes S2, the index
+// cache expires (innerRingIndexer.reset, as the timeout or an RPC reconnect do), then the event arrives twice.
+func runH(c hcase) (calls [2][]irworld.Call, err error) {
+	defer func() {
+		if r := recover(); r != nil {
+			if hp, ok := r.(irworld.HarnessPanic); ok {
+				err = hp
+				return
+			}
+			panic(r)
+		}
+	}()
+	var f *irworld.Fixture
+	o := irworld.Options{StorageEmission: 1000, NoStart: true, IndexerCacheTimeout: time.Hour}
+	if *verbose {
+		o.Log, _ = zap.NewDevelopment()
+	}
+	w, err := irworld.New(fmt.Sprintf("h/%s/%s/%v/%s", c.S1, c.S2, c.Prime, c.Delivery), o, func(w *irworld.World) {
+		applyH(w, c.S1)
+		w.T.CommitteeErr, w.T.IRListErr = nil, nil
+		f = w.InstallFixture()
+		w.T.NetMap = new(netmap.NetMap)
+		w.T.NetMap.SetNodes(f.Nodes[:1])
+	})
+	if err != nil {
+		return calls, err
+	}
+	defer w.Close()
+	applyH(w, c.S1)
+	if err = w.Start(); err != nil {
+		return calls, fmt.Errorf("Server.Start: %w", err)
+	}
+	w.TakeCalls()
+	w.Lock(func(t *irworld.Tables) {
+		nm := new(netmap.NetMap)
+		nm.SetNodes(f.Nodes)
+		t.NetMap = nm
+	})
+	applyH(w, c.S2)
+	w.Srv.VerifExpireIndexerCache()
+	if c.Prime {
+		w.Srv.IsAlphabet()
+	}
+	for round := 0; round < 2; round++ {
+		if err = deliverRound(w, f, c.Delivery, round); err != nil {
+			return calls, err
+		}
+		for _, x := range w.TakeCalls() {
+			if x.Class == "alphabet" {
+				calls[round] = append(calls[round], x)
+			}
+		}
+	}
+	return calls, nil
+}
+
 func sig(c irworld.Call) string {
 	n := c.Contract
 	if strings.HasPrefix(n, "alphabet") {
@@ -209,6 +345,20 @@ func sig(c irworld.Call) string {
 func main() {
 	r := ev.Start("C35", ev.Exploration)
 	if r.Replay != "" {
+		var raw map[string]any
+		r.LoadReplay(&raw)
+		if _, ok := raw["S2"]; ok {
+			var c hcase
+			r.LoadReplay(&c)
+			*verbose = true
+			calls, err := runH(c)
+			fmt.Printf("replay %+v: err=%v\n  first delivery: %v\n  second delivery: %v\n", c, err, calls[0], calls[1])
+			if c.S2 != "member" && len(calls[0])+len(calls[1]) > 0 {
+				r.Violation("replay:nonmember-acts-after-lookup-history", fmt.Sprintf("%+v", c), c)
+			}
+			irworld.CloseAll()
+			r.Finish()
+		}
 		var c tcase
 		r.LoadReplay(&c)
 		*verbose = true
@@ -327,12 +477,77 @@ func main() {
 		r.Violation("nonmember-acts/"+k.delivery+"/"+k.call+"/states="+strings.Join(sts, ","),
 			fmt.Sprintf("a node that is not an alphabet member made the alphabet-authority call %s on %s, in states %v", k.call, k.delivery, sts), firstCase[k])
 	}
+	// 4. part 2: lookup-environment histories
+	var hcases []hcase
+	for _, d := range deliveries {
+		if d == "startup" {
+			continue
+		}
+		for _, s1 := range hstates {
+			for _, s2 := range hstates {
+				for _, pr := range []bool{false, true} {
+					hcases = append(hcases, hcase{s1, s2, pr, d})
+				}
+			}
+		}
+	}
+	type hout struct {
+		calls [2][]irworld.Call
+		err   error
+	}
+	houts := make([]hout, len(hcases))
+	enumx.Parallel(len(hcases), func(i int) {
+		houts[i].calls, houts[i].err = runH(hcases[i])
+		r.Eval(1)
+	})
+	hviol := map[vkey][]string{}
+	hfirst := map[vkey]hcase{}
+	for i, c := range hcases {
+		o := houts[i]
+		if o.err != nil {
+			r.Fatal("%+v: %v", c, o.err)
+		}
+		classes[fmt.Sprintf("history:%s>%s/prime=%v:%s=%d+%d", c.S1, c.S2, c.Prime, c.Delivery, len(o.calls[0]), len(o.calls[1]))] = true
+		if c.S2 == "member" {
+			if len(o.calls[0])+len(o.calls[1]) > 0 {
+				r.Nontrivial("history-member:" + c.S1 + "/" + c.Delivery)
+			}
+			continue
+		}
+		r.Nontrivial(fmt.Sprintf("history:%s>%s/%v/%s", c.S1, c.S2, c.Prime, c.Delivery))
+		for round := 0; round < 2; round++ {
+			dd := map[string]bool{}
+			for _, x := range o.calls[round] {
+				if dd[sig(x)] {
+					continue
+				}
+				dd[sig(x)] = true
+				k := vkey{c.Delivery, sig(x)}
+				hviol[k] = append(hviol[k], fmt.Sprintf("%s>%s%s#%d", c.S1, c.S2, map[bool]string{true: "+query", false: ""}[c.Prime], round+1))
+				if _, ok := hfirst[k]; !ok {
+					hfirst[k] = c
+				}
+			}
+		}
+	}
+	var hks []vkey
+	for k := range hviol {
+		hks = append(hks, k)
+	}
+	sort.Slice(hks, func(i, j int) bool { return hks[i].delivery+hks[i].call < hks[j].delivery+hks[j].call })
+	for _, k := range hks {
+		hs := hviol[k]
+		sort.Strings(hs)
+		r.Violation("nonmember-acts-after-lookup-history/"+k.delivery+"/"+k.call+"/histories="+strings.Join(hs, ","),
+			fmt.Sprintf("a node that is not an alphabet member at delivery time made the alphabet-authority call %s on %s; histories (state at start > state at delivery [+query = one IsAlphabet query after cache expiry] #delivery): %v", k.call, k.delivery, hs), hfirst[k])
+	}
+	r.Set("lookup_histories", len(hcases))
 	r.Set("outcome_classes", len(classes))
 	r.Set("registered_event_kinds", registered)
 	r.Set("registered_without_handler", unhandled)
 	r.Set("deliveries", deliveries)
 	r.Set("states", states)
-	r.Rule("deliveries = {startup (innerring.New+Server.Start), RPC reconnect, basic-income timer, new-epoch timer} + every (contract,type) with a handler in the FS/main chain listeners' registration tables of the real server (read at run time); x 6 alphabet states; one well-formed raw event each (notary requests are also delivered a second time); non-trivial = delivery for which the member run produced >=1 alphabet-authority call (required for every delivery except reconnect, else harness error)")
+	r.Rule("deliveries = {startup (innerring.New+Server.Start), RPC reconnect, basic-income timer, new-epoch timer} + every (contract,type) with a handler in the FS/main chain listeners' registration tables of the real server (read at run time); x 6 alphabet states; one well-formed raw event each (notary requests are also delivered a second time); non-trivial = delivery for which the member run produced >=1 alphabet-authority call (required for every delivery except reconnect, else harness error). Part 2 (lookup histories, real index cache with 1 h timeout): every delivery except start-up x environment at start {member, non-member, committee lookup error, inner ring list lookup error} x environment at delivery (same 4) x {no, one} plain IsAlphabet() query after the cache expired (innerRingIndexer.reset) x the event delivered twice (fresh transactions); judged at both deliveries against the environment at delivery time; non-trivial = history ending in a non-member environment, or in member with calls")
 	r.Exhaustive(true)
 	r.Assume("chain reads are answered from tables and every chain-mutating morph client call succeeds (no RPC faults)",
 		"worker pools have capacity 1 and are never saturated (one event in flight)",
